@@ -6,7 +6,7 @@ use xeh::prelude::*;
 
 pub const DEF: PropDef = PropDef {
     id: "C17",
-    rule: "1-4 sources evaluated on one interpreter (eval or compile+run); the last one contains exactly one culprit token at a generated position: build-time (unknown word incl. non-ASCII names, malformed number / string escape / bit-string literal, unmatched closer, `! unknown`) or run-time (/ by zero, + on a string, drop on empty, assert, error, nth out of range, if on a non-flag, do with a bad range) \
+    rule: "1-4 sources evaluated on one interpreter (eval, compile+run, or - 1 run-time case in 5 - compile and next() steps where an earlier failing `drop` is repaired by the host through push_data and stepping goes on); the last one contains exactly one culprit token at a generated position: build-time (unknown word incl. non-ASCII names, malformed number / string escape / bit-string literal, unmatched closer, `! unknown`) or run-time (/ by zero, + on a string, drop on empty, assert, error, nth out of range, if on a non-flag, do with a bad range) \
 at top level, inside a definition called through 1-4 levels (possibly defined in an earlier source), inside do/begin loops, case arms, meta blocks (before/after other meta blocks), text injected by ~), and (1 case in 8) a file pulled in by include / require. Filler around it: stack-neutral statements, line and block comments, strings with multi-byte characters and raw newlines, LF / CRLF line ends, tabs. \
 Oracle: an independent scanner computes from the source text and the culprit's byte span the line (LF count), column (characters since the last line break), and line text; last_err_location() must name the right source (`<buffer#k>` with k counted by the harness, and the token's parent text), its token range must be the culprit span, line/col/whole_line must equal the scanner's, and pretty_error() must contain the name:line:col header and a caret under the column. \
 Non-trivial = culprit not on line 1, or preceded on its line by a multi-byte character or tab, or at call depth >= 1, or after a meta block; distinct = hash of all sources",
@@ -311,14 +311,45 @@ pub fn case(ch: &mut Choices, ctx: &CaseCtx) -> CaseOut {
             expect_buffer = nsources;
         }
     }
-    let src = b.text.clone();
+    let mut src = b.text.clone();
+    // 1 run-time case in 5 is driven like a debugger session with an earlier failure in the same program: the source
+    // starts with a `drop` on the empty stack; the host steps with next(), repairs the stack through the API when
+    // that step fails, and keeps stepping - the report after the second failure must describe the second failure
+    let stepped = run_time && !in_file && ch.chance(1, 5);
+    if stepped {
+        let in_this_source = expect_text.is_empty();
+        src = format!("drop\n{}", src);
+        if in_this_source {
+            expect_span = (expect_span.0 + 5, expect_span.1 + 5);
+        }
+    }
     if expect_text.is_empty() {
         expect_text = src.clone();
     }
     all_sources.push(src.clone());
-    let style_compile = ch.bool();
+    let style_compile = stepped || ch.bool();
+    let mut repaired = false;
     let res = guard(|| {
-        if style_compile {
+        if stepped {
+            xs.compile(&src)?;
+            loop {
+                if !xs.is_running() {
+                    break OK;
+                }
+                match xs.next() {
+                    Ok(()) => {}
+                    Err(e) => {
+                        let at_decoy = xs.last_err_location().map(|l| l.token.range() == (0..4) && l.token.parent().as_str() == src.as_str()).unwrap_or(false);
+                        if !repaired && at_decoy {
+                            repaired = true;
+                            xs.push_data(Cell::Int(0))?;
+                        } else {
+                            break Err(e);
+                        }
+                    }
+                }
+            }
+        } else if style_compile {
             match xs.compile(&src) {
                 Ok(()) => xs.run(),
                 Err(e) => Err(e),
@@ -327,10 +358,13 @@ pub fn case(ch: &mut Choices, ctx: &CaseCtx) -> CaseOut {
             xs.eval(&src)
         }
     });
+    if stepped {
+        out.class(if repaired { "stepped-after-a-repaired-earlier-failure" } else { "stepped" });
+    }
     let render = format!(
         "{}\nfailing source ({}): {}\nculprit: {:?} ({}) expected at {:?} of buffer#{}",
         all_sources[..all_sources.len() - 1].iter().enumerate().map(|(i, s)| format!("source #{}: {:?}", i, s)).collect::<Vec<_>>().join("\n"),
-        if style_compile { "compile+run" } else { "eval" },
+        if stepped { "compile, next() steps, first failure repaired with push_data" } else if style_compile { "compile+run" } else { "eval" },
         format!("{:?}", src),
         cul.token,
         cul.name,
